@@ -25,7 +25,7 @@ RULE = (
 )
 ASSUMPTIONS = [
     "reference for every eval = a fresh object created at that moment under the current backend; tolerance 1e-12 relative in 64-bit, 2e-5 in 32-bit; tensor type and dtype exact",
-    "fits compared on the attained objective (1e-6 relative in 64-bit; 32-bit fits are not run)",
+    "fits compared on the attained objective (1e-6 relative in 64-bit, 5e-3 in 32-bit where they mainly serve to populate jit caches before a precision switch)",
     "an object that pyhf itself still references after deletion (e.g. jax's jit cache) is not 'garbage-collected'; only errors and wrong results are verdicts",
     "custom backends are not explored",
 ]
@@ -123,7 +123,7 @@ class World:
                 data = drow if N else drow[0]
                 return [("logpdf", obj.logpdf(pars, data))]
             if op == "fit":
-                if N or tb.precision != "64b":
+                if N:
                     return []
                 nd = cfg.nmaindata
                 init = cfg.suggested_init()
@@ -168,7 +168,7 @@ def compare(shard, label, old, new, precision, ctx, case):
     a, b = to_np(old), to_np(new)
     rel = 1e-12 if precision == "64b" else 2e-5
     if label == "fit_objective":
-        rel = 1e-6
+        rel = 1e-6 if precision == "64b" else 5e-3
     probs = []
     if type(old) is not type(new):
         probs.append(f"tensor type {type(old).__name__} vs fresh {type(new).__name__}")
@@ -256,18 +256,31 @@ def run_history(seed, shard, length):
             op = rng.choice(w.ops_for(kind))
             trace.append(["eval", oid, op, list(state)])
             ctx = f"object {kind}#{oid} born at switch {born}, now at switch {switch_index} state={state}, op={op}, recent trace={trace[-7:]}"
+            old_exc = new_exc = None
             try:
                 old = w.evaluate(kind, recipe, obj, op)
             except Exception as e:
-                shard.violate("C11/eval-raised", f"{type(e).__name__}: {str(e)[:200]}; {ctx}", dict(case, recipe=recipe), "eval_vs_fresh")
-                return
+                old_exc = e
             try:
                 fresh_obj = w.make(kind, recipe)
                 new = w.evaluate(kind, recipe, fresh_obj, op)
             except Exception as e:
-                shard.skip(f"fresh object could not be evaluated: {type(e).__name__}")
+                new_exc = e
+            if old_exc is not None and new_exc is not None and type(old_exc) is type(new_exc):
+                # the operation is not available in this state for any object (e.g. SLSQP refuses float32 gradients of
+                # the 32-bit pytorch/tensorflow backends): old and fresh behave alike, which is all C11 asks
+                shard.skip(f"operation raises {type(old_exc).__name__} for old and fresh object alike ({op} under {state[0]}-{state[1]})")
+                continue
+            if old_exc is not None:
+                shard.violate("C11/eval-raised", f"{type(old_exc).__name__}: {str(old_exc)[:200]} (a fresh object {'raises ' + type(new_exc).__name__ if new_exc else 'evaluates fine'}); {ctx}", dict(case, recipe=recipe), "eval_vs_fresh")
+                return
+            if new_exc is not None:
+                shard.skip(f"fresh object could not be evaluated: {type(new_exc).__name__}")
                 continue
             for (la, oa), (lb, ob) in zip(old, new):
+                if la != lb:
+                    shard.skip("fit converged for one of old/fresh object only (32-bit optimiser noise)")
+                    continue
                 compare(shard, la, oa, ob, state[1], ctx, dict(case, recipe=recipe))
             if old and born < switch_index:
                 old_evals += 1
@@ -277,6 +290,53 @@ def run_history(seed, shard, length):
         shard.nontrivial([t[:3] if t[0] != "eval" else t[:3] + t[3] for t in trace])
     shard.maximum("history_length", length)
     return trace
+
+
+def run_directed(seed, shard, backend):
+    """A scripted history aimed at caches keyed on too little: the same model is fitted and evaluated under
+    <backend>-32b, then under <backend>-64b, then back under numpy-64b, each time against a fresh model."""
+    import pyhf
+
+    rng = random.Random(seed)
+    w = World(rng, shard)
+    pyhf.set_backend("numpy", "scipy", precision="64b")
+    kind, recipe = "model", {"spec": _spec(rng), "batch": None, "settings": {"histosys": {"interpcode": "code4p"}, "normsys": {"interpcode": "code4"}}, "seed": rng.randrange(1 << 30)}
+    obj = w.make(kind, recipe)
+    trace = [["create", 0, "model"]]
+    case = {"seed": seed, "directed": backend, "trace": trace, "recipe": recipe}
+    for step, (name, prec, opt) in enumerate([(backend, "32b", "scipy"), (backend, "64b", "scipy"), (backend, "32b", "minuit"), (backend, "64b", "minuit"), ("numpy", "64b", "scipy")]):
+        trace.append(["switch", name, prec, opt])
+        try:
+            pyhf.set_backend(name, opt, precision=prec)
+        except Exception as e:
+            shard.violate("C11/switch-raised", f"set_backend({name},{opt},{prec}) raised {type(e).__name__}: {str(e)[:200]} in the directed history", case, "switch_ok")
+            return
+        shard.ok("switch_ok")
+        for op in ("fit", "logpdf", "expected_data"):
+            trace.append(["eval", 0, op, [name, prec, opt]])
+            ctx = f"directed history {trace[-8:]}"
+            old_exc = new_exc = None
+            try:
+                old = w.evaluate(kind, recipe, obj, op)
+            except Exception as e:
+                old_exc = e
+            try:
+                new = w.evaluate(kind, recipe, w.make(kind, recipe), op)
+            except Exception as e:
+                new_exc = e
+            if old_exc is not None and new_exc is not None and type(old_exc) is type(new_exc):
+                shard.skip(f"operation raises {type(old_exc).__name__} for old and fresh object alike ({op} under {name}-{prec})")
+                continue
+            if old_exc is not None:
+                shard.violate("C11/eval-raised", f"{type(old_exc).__name__}: {str(old_exc)[:200]}; {ctx}", case, "eval_vs_fresh")
+                return
+            if new_exc is not None:
+                continue
+            for (la, oa), (lb, ob) in zip(old, new):
+                if la == lb:
+                    compare(shard, la, oa, ob, prec, ctx, case)
+    shard.covered("directed_histories", f"{backend}: 32b -> 64b -> 32b/minuit -> 64b/minuit -> numpy")
+    shard.nontrivial("directed", backend, seed)
 
 
 def plan(tier, seed):
@@ -291,6 +351,7 @@ def run_shard(shard):
     warnings.simplefilter("ignore")
     p = shard.params
     rng = random.Random(p["seed"])
+    run_directed(p["seed"] + 77, shard, ["jax", "pytorch", "tensorflow", "jax"][shard.index % 4])
     for k in range(p["n"]):
         length = rng.randint(6, 14)
         tr = run_history(p["seed"] + k, shard, length)
@@ -302,4 +363,7 @@ def replay(rec, shard):
     import logging
     logging.disable(logging.CRITICAL)
     c = rec["case"]
-    run_history(c["seed"], shard, c["length"])
+    if c.get("directed"):
+        run_directed(c["seed"], shard, c["directed"])
+    else:
+        run_history(c["seed"], shard, c["length"])
